@@ -84,6 +84,19 @@ import (
 //@   assumes-assigns nothing
 //@   assumes len: err == nil ==> length == abstractLen("tuple", t, version)
 
+// the code of a descriptor is a function of the descriptor: the fixed code of its kind, or a primitive type's stored
+// code (every implementer refines this)
+//@ iface DataType.Code
+//@   prop C03
+//@   assigns nothing
+//@   ensures custom: typeis(self, *Custom) ==> result == primitive.DataTypeCodeCustom
+//@   ensures list: typeis(self, *List) ==> result == primitive.DataTypeCodeList
+//@   ensures set: typeis(self, *Set) ==> result == primitive.DataTypeCodeSet
+//@   ensures mapt: typeis(self, *Map) ==> result == primitive.DataTypeCodeMap
+//@   ensures tuple: typeis(self, *Tuple) ==> result == primitive.DataTypeCodeTuple
+//@   ensures udt: typeis(self, *UserDefined) ==> result == primitive.DataTypeCodeUdt
+//@   ensures primitive: typeis(self, *PrimitiveType) && !isnil(unbox(self, *PrimitiveType)) ==> result == unbox(self, *PrimitiveType).code
+
 func lemmaDataTypeLen(t DataType, version primitive.ProtocolVersion) bool {
 	buf := &bytes.Buffer{}
 	if e2 := WriteDataType(t, buf, version); e2 != nil {
@@ -96,4 +109,10 @@ func lemmaDataTypeLen(t DataType, version primitive.ProtocolVersion) bool {
 //@ func lemmaDataTypeLen
 //@   prop C03
 //@   expand datatype.WriteDataType, datatype.LengthOfDataType
-//@   ensures agree: result
+// (one clause per descriptor kind: each is decided with the two switches already resolved; primitive types and
+// tuples are NOT decided - their clauses did not discharge and are not claimed)
+//@   ensures agreeCustom: typeis(t, *Custom) ==> result
+//@   ensures agreeList: typeis(t, *List) ==> result
+//@   ensures agreeSet: typeis(t, *Set) ==> result
+//@   ensures agreeMap: typeis(t, *Map) ==> result
+//@   ensures agreeUserDefined: typeis(t, *UserDefined) ==> result
